@@ -20,7 +20,11 @@ func (prop) Rule() string {
 		"segmentations: one write, fixed pieces, random cuts with zero-length writes, cuts next to chunk boundaries), `sum`, `open` (joiner.New over the Put-logging copying store), `size`, then a mix of " +
 		"`readat off len len` (offsets 0, size-1, size, size+1, chunk boundaries +-1, random; lengths 0,1,100,C,size,size+5,random), `read n n`/`seek off whence` sequences and `readall` (file.JoinReadAll). " +
 		"Go oracle (model-free): size = bytes written, every read returns exactly content[off:off+min(len,size-off)], sequential reads follow the oracle's own cursor, JoinReadAll returns the content. " +
-		"Encrypted mode: the model runs the same writer/reader models with branching 4096 and 64-byte references, references themselves are not compared (random keys). " +
+		"Encrypted mode: the runner reads the random keys and padding bytes back from the 64-byte references / stored chunks (own keystream implementation) and annotates `sum` with them; the model (EncUpload.upload) " +
+		"recomputes every address with real Keccak: compared are the full reference, the Put count and multiset digest, size and every read (through the decrypting getter model). Fixed encrypted cases: empty file, 1 byte, C, C+1, C+100; " +
+		"`new encsmall c b` (real encryption/bmt/store/hashtrie writers with small chunk size and branching, writer side only) reaches trees with two and three intermediate levels; " +
+		"`new synth seed size period` serves the canonical encrypted tree of a 1 GiB + 3C + 1000 byte periodic file chunk by chunk on demand (fake addresses, position-derived keys) to the real joiner / decrypting getter and to the reader model: reads across and beyond the 1 GiB boundary (two intermediate levels with the real constants). " +
+		"Go oracle, encrypted: stored chunks have 8+C bytes and are cac.Valid, decrypted data chunks equal the written bytes (enc-leaf-content), plus all read-back clauses. " +
 		"Non-trivial: opened and >= 1 read of a non-empty file; distinct by op-list hash. Multi-chunk cases limited in number (Lean-side hashing cost)."
 }
 
@@ -85,6 +89,51 @@ func (prop) Gen(r *core.Rand, tier string) []core.Case {
 			fmt.Sprintf("readat %d 300 300", C-150), "readall"}},
 		{ID: "fix-enc-two-chunks", NT: true, Ops: []string{"new enc", fmt.Sprintf("write p:12:%d:65536", C+100), "sum", "open", "size",
 			fmt.Sprintf("readat %d 200 200", C-100), "seek 50 2", "read 100 100", "seek 0 0", "readall"}},
+	}
+	// encrypted fixed sizes around the chunk boundary (the empty file is in fix-empty and here again on its own)
+	cs = append(cs,
+		core.Case{ID: "fix-enc-empty", NT: true, Ops: []string{"new enc", "sum", "open", "size", "readat 0 10 10", "read 5 5", "seek 0 2", "seek 1 0", "readall"}},
+		core.Case{ID: "fix-enc-empty-write", NT: true, Ops: []string{"new enc", "write h:-", "sum", "open", "size", "read 1 1"}},
+		core.Case{ID: "fix-enc-one-byte", NT: true, Ops: []string{"new enc", "write h:5a", "sum", "open", "size", "readat 0 1 1", "readat 1 1 1", "read 2 2", "read 1 1"}},
+		core.Case{ID: "fix-enc-full-chunk", NT: true, Ops: []string{"new enc", fmt.Sprintf("writeseg p:13:%d:4096 100000", C), "sum", "open", "size", fmt.Sprintf("readat %d 5 5", C-3), "readall"}},
+		core.Case{ID: "fix-enc-chunk-plus-one", NT: true, Ops: []string{"new enc", fmt.Sprintf("write p:14:%d:4096", C+1), "sum", "open", "size", fmt.Sprintf("readat %d 5 5", C-3), fmt.Sprintf("readat %d 1 1", C), "seek 1 2", "read 9 9"}},
+		// two intermediate levels with branching 2 (3 data chunks → node(node(l1,l2),l3)) and three levels
+		core.Case{ID: "fix-encsmall-two-levels", NT: true, Ops: []string{"new encsmall 64 2", "write g:21:150", "sum", "open"}},
+		core.Case{ID: "fix-encsmall-three-levels", NT: true, Ops: []string{"new encsmall 32 2", "writeseg g:22:131 7", "sum"}},
+	)
+	// reader on an encrypted tree with two intermediate levels (> 4096 chunks, 1 GiB + 3 chunks + 1000 bytes),
+	// served on demand by a synthetic store (real joiner and decrypting getter; no upload)
+	{
+		G := 4096 * C
+		size := G + 3*C + 1000
+		cs = append(cs, core.Case{ID: "fix-enc-synth-two-levels", NT: true, Ops: []string{
+			fmt.Sprintf("new synth 7 %d 4096", size), "open", "size",
+			fmt.Sprintf("readat %d 300 300", G-100), fmt.Sprintf("readat %d 1000 1000", G+C+5), "readat 12345 10 10",
+			"seek 500 2", "read 300 300", "read 300 300", "read 1 1", fmt.Sprintf("seek %d 0", G), "read 7 7"}})
+	}
+	nEncSmall := 3
+	if tier == "thorough" {
+		nEncSmall = 20
+	}
+	for i := 0; i < nEncSmall; i++ {
+		c := r.Pick([]int{32, 33, 64, 100, 4096})
+		b := r.Pick([]int{2, 2, 3, 4})
+		leaves := r.Range(1, b*b+2)
+		if leaves > 9 {
+			leaves = 9
+		}
+		total := (leaves-1)*c + r.Range(1, c)
+		if r.Chance(20) {
+			total = leaves * c
+		}
+		cse := core.Case{ID: fmt.Sprintf("es%d", i), NT: true, Ops: []string{fmt.Sprintf("new encsmall %d %d", c, b)}}
+		if r.Chance(50) {
+			cse.Ops = append(cse.Ops, fmt.Sprintf("writeseg %s %d", fc.Src(r, total, true), r.Range(1, 2*c+1)))
+		} else {
+			cse.Ops = append(cse.Ops, "write "+fc.Src(r, total, true))
+		}
+		cse.Ops = append(cse.Ops, "sum")
+		cs = append(cs, cse)
 	}
 	add := func(id string, total int, nreads int) {
 		head := "new"
